@@ -249,15 +249,24 @@ def generate() -> str:
     return "\n".join(out)
 
 
+def texts(extra=None) -> dict:
+    """relative path -> generated text, nothing written"""
+    out = {"Gen/Generated.v": generate()}
+    if extra is not None:
+        out.update(extra(REPO))
+    return out
+
+
+def differs_from_disk(extra=None) -> bool:
+    return any(not (COQ / rel).exists() or (COQ / rel).read_text() != t for rel, t in texts(extra).items())
+
+
 def run(extra=None) -> dict:
     """Regenerate Gen/Generated.v (+ extra files of a property module). Returns info; raises TranslatorError."""
-    text = generate()
-    changed = write_if_changed(COQ / "Gen" / "Generated.v", text)
-    info = {"Generated.v": {"changed": changed, "bytes": len(text)}}
-    if extra is not None:
-        for rel, t in extra(REPO).items():
-            c = write_if_changed(COQ / rel, t)
-            info[rel] = {"changed": c, "bytes": len(t)}
+    info = {}
+    for rel, t in texts(extra).items():
+        c = write_if_changed(COQ / rel, t)
+        info[rel.split("/", 1)[1] if rel == "Gen/Generated.v" else rel] = {"changed": c, "bytes": len(t)}
     return info
 
 
